@@ -275,7 +275,13 @@ func (r *Run) runScript(pi int, sc *plan.Script) {
 		r.mu.Lock()
 		r.invAt[[2]int{sc.ID, i}] = rec.TInv
 		r.mu.Unlock()
+		if op.K == "del" {
+			rec.RtInv = r.routingEpoch()
+		}
 		r.doOp(eff, i, &op, &rec)
+		if op.K == "del" {
+			rec.RtRet = r.routingEpoch()
+		}
 		rec.Ret = r.K.Stamp()
 		rec.TRet = int64(r.K.Now())
 		r.record(rec)
@@ -294,6 +300,17 @@ func (r *Run) runScript(pi int, sc *plan.Script) {
 			r.record(pr)
 		}
 	}
+}
+
+// routingEpoch hashes the routing signatures of all running members (see plan.Rec.RtInv).
+func (r *Run) routingEpoch() (h uint64) {
+	defer func() { recover() }() // a member that has not received its first table
+	h = 1469598103934665603
+	for _, m := range r.C.Running() {
+		h = (h ^ uint64(m.Idx+1)) * 1099511628211
+		h = (h ^ m.DB.VerifRoutingSignature()) * 1099511628211
+	}
+	return h
 }
 
 // Classify maps an error from any client path to a class name.
